@@ -9,7 +9,7 @@ from ..ref import jsonlex as jl
 
 LEVEL = 'exploration'
 RULE = ('value spaces, each indexed 0..size-1 and enumerated completely for every indent of the tier: (strings) every '
-        'string of length <= 4 over {a . 0 , ] }}, of length <= 4 over {quote backslash 1 . 0 ,} of length <= 2 over 13 special characters, plus 40 strings that look like another type (dates, ISO datetimes, null/true/NaN/Infinity, 1e5, 0x10, -0, 007, JSON texts such as [1]) (quote, backslash, slash, '
+        'string of length <= 4 over {a . 0 , ] }}, of length <= 4 over {quote backslash 1 . 0 ,} of length <= 2 over 13 special characters, plus 40 strings that look like another type (dates, ISO datetimes, null/true/NaN/Infinity, 1e5, 0x10, -0, 007, JSON texts such as [1]) and 45 strings that look like syntax around JSON (// and /* */ and # comments, also after a line break inside the string, trailing commas, unquoted keys, escape look-alikes) (quote, backslash, slash, '
         'LF, NUL, U+001F, U+007F, e-acute, U+2028, a non-BMP emoji, a lone surrogate, ".", "0"), each placed in 7 '
         'contexts (top level, first/last array element, next to 1.0, object value, object key, key+value+nested); '
         '(flat) every array of length <= 2 and every object over keys b, a, a.0 (inserted in that order) over 9 leaves; '
@@ -59,6 +59,13 @@ S4_LOOKALIKES = ['2024-02-29', '2024-02-30', '1970-01-01', '2024-02-29T12:00:00Z
                  'null', 'true', 'false', 'NaN', 'Infinity', '-Infinity', 'undefined', '1e5', '1E+5', '0x10', '-0', '-0.0', '007', '0123',
                  '00.5', '1.50', '+1', '12', '1.5', ' 1', '[1]', '[]', '{}', '{"a":1}', '"x"', '"2024-02-29"', '<function>', '<regex>',
                  '550e8400-e29b-41d4-a716-446655440000']
+# strings whose content looks like syntax *around* JSON that a lenient pre-processor might strip or rewrite before parsing: line and
+# block comments, hash comments, trailing commas, unquoted keys, escape look-alikes; also after a line break inside the string.
+# (the bare trailing-comma look-alikes ",]" ",}" are in S1, "//" and backslash-slash in S2, the words NaN / Infinity / -Infinity in S4)
+S5_SYNTAX = [' // x', 'see // below', '// x', 'a //', ' //', 'http://x/y', '/* x */', 'a /* b */ c', '/*', '*/', '/**/', '# x', 'a # b', '#',
+             ' #x', 'a\n// b', '\n//', '\n // x\n', 'a\n# b', 'a\n/* b\n*/', '\t// x', '\r\n// x', '-- x', '; x', '<!-- x -->', "'x'",
+             '{/* a */}', '[1, // one\n2]', '[1,]', '{"a":1,}', ', ]', ', }', ',\n]', 'a: 1', 'key: value', '{a: 1}', '\\u0041', '\\n',
+             '\\x41', '$ref', '@x', '%7B', '&amp;', '${x}', '{{x}}']
 CONTEXTS = ['top', 'arr-first', 'arr-last', 'arr-float', 'obj-value', 'obj-key', 'obj-mixed']
 LEAVES = [None, True, 1, 1.0, 1.5, -0.0, 1e+21, 's', 'a.0]']
 KEYS = ['b', 'a', 'a.0']
@@ -115,12 +122,15 @@ def strings():
             out = out + [s for s in more if s not in seen]
         if set(out) & set(S4_LOOKALIKES) or len(set(S4_LOOKALIKES)) != len(S4_LOOKALIKES):
             raise ValueError('S4_LOOKALIKES must be disjoint from the generated string sets')
-        _CACHE['strings'] = out + S4_LOOKALIKES
+        out = out + S4_LOOKALIKES
+        if set(out) & set(S5_SYNTAX) or len(set(S5_SYNTAX)) != len(S5_SYNTAX):
+            raise ValueError('S5_SYNTAX must be disjoint from the other string sets')
+        _CACHE['strings'] = out + S5_SYNTAX
     return _CACHE['strings']
 
 
 # S1 + (S3 minus the strings over the common symbols . 0 ,) + (S2 minus the strings over the symbols " \ . 0 it shares with S1/S3)
-N_STRINGS = 1555 + (1555 - sum(3 ** k for k in range(5))) + (sum(13 ** k for k in range(3)) - sum(4 ** k for k in range(3))) + 40
+N_STRINGS = 1555 + (1555 - sum(3 ** k for k in range(5))) + (sum(13 ** k for k in range(3)) - sum(4 ** k for k in range(3))) + 40 + 45
 
 
 def in_context(s, ctx):
@@ -1194,7 +1204,7 @@ def families(tier):
     fams = []
     nshards = {'strings': 24, 'flat': 8, 'nested': 48, 'nested3': 64, 'deep': 8, 'numbers': 24}
     bounds = {
-        'strings': f'{N_STRINGS} strings (length <= 4 over {"".join(S1_ALPHABET)!r}; length <= 4 over {"".join(S3_ALPHABET)!r}; length <= 2 over 13 special characters; 40 strings that look like dates, datetimes, literals, numbers or JSON texts) x {len(CONTEXTS)} contexts',
+        'strings': f'{N_STRINGS} strings (length <= 4 over {"".join(S1_ALPHABET)!r}; length <= 4 over {"".join(S3_ALPHABET)!r}; length <= 2 over 13 special characters; 40 strings that look like dates, datetimes, literals, numbers or JSON texts; 45 that look like comments, trailing commas and other syntax around JSON) x {len(CONTEXTS)} contexts',
         'flat': '9 leaves; arrays of length <= 2 and objects over keys b, a, a.0 over the 9 leaves',
         'nested': 'arrays of length <= 2 and objects over keys b, a, a.0 ' + ('(at most 2 present) ' if tier == 'quick' else '')
                   + 'over 9 leaves + 77 depth-1 containers over {null, 1.0, "a.0]"}',
@@ -1246,7 +1256,7 @@ def families(tier):
 def expected_size(name, tier):
     """Closed forms, written independently of the index decoders."""
     if name == 'strings':
-        return (1555 + 1434 + 162 + 40) * 7
+        return (1555 + 1434 + 162 + 40 + 45) * 7
     if name == 'flat':
         return 9 + (1 + 9 + 81) + 10 ** 3
     if name == 'nested':
